@@ -280,10 +280,23 @@ def run(prog, rep):
     for un in ("ptree.c", "ptree-bst.c", "ptree-rb.c", "ptree-avl.c"):
         tu = prog.unit(un)
         for fn in sorted(tu.functions.values(), key=lambda f: f.loc[0]):
-            if not any(c.get("callee") in rel for (b, i, c) in fn.calls()):
+            slot_rel = [c for (b, i, c) in fn.calls() if c.get("callee") is None and fnptr_name(c) == "free_node_func"]
+            if not any(c.get("callee") in rel for (b, i, c) in fn.calls()) and not slot_rel:
                 continue
             n5 += 1
-            ps = uaf.check_function(fn, rel)
+            fchk, relx = fn, rel
+            if slot_rel:
+                # the node goes back through the tree's free_node slot: the same release as a direct p_free (a private copy of the
+                # function with the slot call named, so the release typestate sees it)
+                import copy
+                from plint.ir import Function
+                fchk = Function(copy.deepcopy(fn.raw.d if hasattr(fn, "raw") else fn.d), tu)
+                for (b, i, c) in fchk.calls():
+                    if c.get("callee") is None and fnptr_name(c) == "free_node_func":
+                        c["callee"] = "__free_node_slot"
+                relx = dict(rel)
+                relx["__free_node_slot"] = 0
+            ps = uaf.check_function(fchk, relx)
             if ps:
                 k, pth, ln, w, at = ps[0]
                 rep.ob("C14.5", fn, "live", False, "line %d: %s %s after the node was released at line %s: with an allocator that reuses or scrubs freed blocks the "
@@ -291,13 +304,16 @@ def run(prog, rep):
                            ln, pth, {"use": "is read", "double": "is released again", "pass": "is passed to a call", "return": "is returned"}[k], at), ln, w)
             else:
                 rep.ob("C14.5", fn, "live", True, "nothing of a node is touched after its release", fn.loc[0])
-    rep.floor("C14.5", 4)
+    rep.floor("C14.5", 5)
 
 
 # generic robustness battery: renaming every local/parameter in these files must not change any verdict
 RENAME_LOCALS = ['src/ptree.c', 'src/ptree-bst.c', 'src/ptree-rb.c', 'src/ptree-avl.c']
 
 SELFTEST = [
+    dict(id="clear-frees-node-before-value-notifier", file="src/ptree.c", expect="C14.5", count=1,
+         old="\t\t\tif (tree->value_destroy_func != NULL)\n\t\t\t\ttree->value_destroy_func (cur_node->value);\n\n\t\t\ttree->free_node_func (cur_node);\n\t\t\t--tree->nnodes;",
+         new="\t\t\ttree->free_node_func (cur_node);\n\t\t\t--tree->nnodes;\n\n\t\t\tif (tree->value_destroy_func != NULL)\n\t\t\t\ttree->value_destroy_func (cur_node->value);"),
     dict(id="bst-node-freed-before-notifiers", expect="C14.5", edits=[
         dict(file="src/ptree-bst.c", old="\t*node_pointer = cur_node->left == NULL ? cur_node->right : cur_node->left;\n", new="\t*node_pointer = cur_node->left == NULL ? cur_node->right : cur_node->left;\n\tp_free (cur_node);\n"),
         dict(file="src/ptree-bst.c", old="\t\tvalue_destroy_func (cur_node->value);\n\n\tp_free (cur_node);\n\n\treturn TRUE;", new="\t\tvalue_destroy_func (cur_node->value);\n\n\treturn TRUE;")]),
